@@ -389,6 +389,8 @@ class Gen:
 		if r < 0.65:
 			return str(self.rng.choice([0, 1, 2, 10, 255, 1000]))
 		if r < 0.72:
+			if self.rng.random() < 0.02:
+				return self.rng.choice(['0o17', '0b101', '2j'])  # known finding raise:UnresolvedNode:number
 			return self.rng.choice(['1.5', '0.5', '2.0', '1e3', '0x1F', '0xff'])
 		if r < 0.84:
 			return self.rng.choice(["'s'", '"t"', "''", "'a.b'", '"x y"', "'it\\'s'", '"q\\n"'])
@@ -497,15 +499,8 @@ class Gen:
 		return f"{f}({', '.join(args)})"
 
 	def key_expr(self, d: int) -> str:
-		"""a subscript key that is not a parenthesised tuple (`a[(1, 2)]` and `a[1, 2]` are the same CPython ast)"""
-		for _ in range(5):
-			s = self.expr(d)
-			try:
-				if not isinstance(ast.parse(s, mode='eval').body, ast.Tuple):
-					return s
-			except SyntaxError:
-				return s
-		return self.name()
+		"""a subscript key; parenthesised tuples included (compared modulo CPython's identification of `a[(1, 2)]` and `a[1, 2]`)"""
+		return self.expr(d)
 
 	def slices(self, d: int) -> str:
 		rng = self.rng
@@ -582,6 +577,10 @@ class Gen:
 		if r < 0.42:
 			targets = ', '.join(self.fresh('t') for _ in range(rng.choice([1, 1, 1, 2, 3])))
 			value = self.expr(d) if rng.random() < 0.8 else ', '.join(self.expr(d - 1) for _ in range(2))
+			if rng.random() < 0.03:
+				targets += f' = {self.fresh("t")}'  # chained assignment (known finding group:chained-assignment)
+			if rng.random() < 0.02 and ctx in ('func', 'method', 'loopfunc'):
+				value = rng.choice(['yield', '(yield)'])  # known divergence canon:bare-yield-read-as-name
 			return [self.line(ind, f'{targets} = {value}')]
 		if r < 0.5:
 			return [self.line(ind, f'{self.fresh("t")}: {self.type_expr()}' + (f' = {self.expr(d)}' if rng.random() < 0.7 else ''))]
@@ -652,12 +651,11 @@ class Gen:
 				# calls, but also bare identifiers / attributes (`with lock:`) and other expressions
 				r2 = rng.random()
 				ce = self.call(2) if r2 < 0.5 else self.name() if r2 < 0.75 else f'{self.name()}.{self.name()}' if r2 < 0.9 else self.expr(1)
-				if ce.startswith('('):
-					# `with (a, b):` is CPython's parenthesised item list (3.9+) but one tuple expression for grammar.lark:
-					# reported as a divergence, kept out of the generated language
-					ce = self.name()
 				return ce + (f' as {self.fresh("w")}' if rng.random() < 0.5 else '')
 			items = ', '.join(with_item() for _ in range(rng.choice([1, 1, 2])))
+			if rng.random() < 0.12:
+				# CPython's parenthesised with-item list (known divergence canon:with-parenthesised-items)
+				items = '(' + ', '.join(self.name() if rng.random() < 0.6 else self.call(1) for _ in range(rng.choice([2, 2, 3]))) + (',' if rng.random() < 0.2 else '') + ')'
 			out.append(self.line(ind, f'with {items}:'))
 			return out + self.block(d - 1, ctx, ind + 1)
 		if r < 0.9:
@@ -709,6 +707,11 @@ class Gen:
 				name, first = '__init__', 'self'
 			else:
 				first = 'self'
+			r2 = rng.random()
+			if r2 < 0.05 and deco_first is None and name != '__init__':
+				first = rng.choice(['this', 'me', None])  # known divergence classify:method-without-self-name
+			elif r2 < 0.07 and deco_first == 'staticmethod':
+				first = 'self'  # known divergence classify:staticmethod-taking-self
 		else:
 			# outside class bodies the names that used to steer the classification must not matter
 			r = rng.random()
@@ -718,6 +721,8 @@ class Gen:
 				first = 'cls'
 			if rng.random() < 0.04:
 				name = '__init__'
+			if rng.random() < 0.02:
+				deco_first, first = 'classmethod', 'cls'  # known divergence classify:classmethod-outside-class
 		out += self.decorators(ind, deco_first)
 		ret = 'None' if name == '__init__' else self.type_expr()
 		out.append(self.line(ind, f'def {name}({self.params(first)}) -> {ret}:'))
@@ -731,6 +736,11 @@ class Gen:
 			if rng.random() < 0.4:
 				body.append(self.line(ind + 1, f'super().__init__({self.items(1)})'))
 		body += self.block(d, 'method' if in_class else 'func', ind + 1)
+		if rng.random() < 0.04:
+			# a triple-quoted string statement that is not first (known divergence canon:docstring-hoisted)
+			prefix = self.indent_unit * (ind + 1)
+			spots = [i for i in range(1, len(body)) if body[i].startswith(prefix) and not body[i][len(prefix):].startswith((' ', '\t', 'elif', 'else', 'except'))] + [len(body)]
+			body.insert(rng.choice(spots), self.line(ind + 1, '"""late %d"""' % self.n))
 		return out + body
 
 	def classdef(self, d: int, ind: int) -> list[str]:
@@ -738,6 +748,8 @@ class Gen:
 		out = self.decorators(ind, None)
 		name = self.fresh('C')
 		bases = [rng.choice(['A', 'B', 'mod.Base', 'Box[int]', 'Enum', 'object']) for _ in range(rng.choice([0, 0, 1, 1, 2]))]
+		if rng.random() < 0.05:
+			bases.append(f'metaclass={rng.choice(["Meta", "abc.ABCMeta"])}')  # known divergence canon:class-metaclass-dropped
 		out.append(self.line(ind, f'class {name}' + (f"({', '.join(bases)})" if bases or rng.random() < 0.2 else '') + ':'))
 		body: list[str] = []
 		if rng.random() < 0.3:
@@ -751,7 +763,12 @@ class Gen:
 			else:
 				body.append(self.line(ind + 1, f'{self.fresh("K")} = {self.expr(1)}'))
 		for _ in range(rng.choice([0, 1, 2, 3])):
-			body += self.funcdef(max(d - 1, 0), 'class', ind + 1, in_class=True)
+			if rng.random() < 0.06:
+				# a function of the class under an `if` of the class body (known divergence classify:class-function-under-block)
+				body.append(self.line(ind + 1, f'if {self.name()}:'))
+				body += self.funcdef(max(d - 1, 0), 'class', ind + 2, in_class=True)
+			else:
+				body += self.funcdef(max(d - 1, 0), 'class', ind + 1, in_class=True)
 		if rng.random() < 0.15 and d > 0:
 			body += self.classdef(d - 1, ind + 1)
 		if not body:
@@ -918,36 +935,108 @@ AUG_OPS = {ast.Add: '+=', ast.Sub: '-=', ast.Mult: '*=', ast.Div: '/=', ast.Mod:
 	ast.LShift: '<<=', ast.RShift: '>>=', ast.Pow: '**=', ast.FloorDiv: '//=', ast.MatMult: '@='}
 
 
+# known divergences of tranp's reading from CPython's inside the property's quantifier. Each is RAISED as a finding under its own
+# key whenever a generated (or corpus) program contains the construct; the CPython-side canon is then continued with tranp's
+# reading of that one construct, so that every other difference in the same program is still reported separately.
+MARK_WHAT = {
+	'group:chained-assignment': 'a = b = c: MoveAssign.value is b, c is unreachable (CPython: targets [a, b], value c)',
+	'canon:with-parenthesised-items': 'with (a, b): — CPython (3.9+) reads a parenthesised list of with-items, grammar.lark one item whose expression is the tuple (a, b)',
+	'canon:docstring-hoisted': 'a triple-double-quoted string statement that is not the first statement of a def/class body is moved into `comment` (only the last one is kept) and removed from `statements`',
+	'canon:bare-yield-read-as-name': 'x = yield / (yield): grammar.lark has no bare yield expression and does not reserve the word: it is read as a variable called yield (CPython: Yield)',
+	'canon:class-metaclass-dropped': 'class A(B, metaclass=M): the metaclass argument is in the lark tree but no node property exposes it (CPython: keywords=[metaclass=M])',
+	'classify:method-without-self-name': 'a function of a class body whose first parameter is not called self is classified Function (Python: instance method whatever the name)',
+	'classify:staticmethod-taking-self': 'a @staticmethod whose first parameter is called self is classified Method (Python: plain function)',
+	'classify:classmethod-outside-class': '@classmethod on a def that is not in a class body is classified ClassMethod (Python: a decorated function / closure)',
+	'classify:class-function-under-block': 'a def nested in an if/try/with/loop block of a class body is classified Closure (Python: it is still a function of the class)',
+}
+
+
 class PyCanon:
 	"""CPython side. Function kinds and declaration/reference roles are computed from Python's own scoping rules."""
+
+	def __init__(self, src: str = '') -> None:
+		self.src = src
+		self.marks: dict[str, str] = {}
+
+	def mark(self, key: str, node: ast.AST) -> None:
+		self.marks.setdefault(key, f"line {getattr(node, 'lineno', '?')}: {MARK_WHAT[key]}")
 
 	def module(self, m: ast.Module) -> str:
 		return sx('Module', self.body(m.body, 'module'))
 
-	def body(self, stmts: list[ast.stmt], scope: str) -> list[str]:
-		return [self.stmt(s, scope) for s in stmts]
+	def body(self, stmts: list[ast.stmt], scope: str, direct: bool = False, owner: ast.AST | None = None) -> list[str]:
+		"""`direct`: the statements of a class body itself; `owner`: the def/class whose body this is (doc-string handling)"""
+		if owner is not None:
+			stmts = self.hoist_docstrings(stmts, owner)
+		return [self.stmt(s, scope, direct) for s in stmts]
+
+	def is_docstring_stmt(self, s: ast.stmt) -> bool:
+		if not (isinstance(s, ast.Expr) and isinstance(s.value, ast.Constant) and isinstance(s.value.value, str)):
+			return False
+		seg = ast.get_source_segment(self.src, s.value) or ''
+		return seg.startswith('"""') and seg.endswith('"""') and len(seg) >= 6
+
+	def hoist_docstrings(self, stmts: list[ast.stmt], owner: ast.AST) -> list[ast.stmt]:
+		docs = [i for i, st in enumerate(stmts) if self.is_docstring_stmt(st)]
+		if docs in ([], [0]):
+			return stmts
+		self.mark('canon:docstring-hoisted', stmts[docs[-1]])
+		return [stmts[docs[-1]]] + [st for i, st in enumerate(stmts) if i not in docs]
+
+	def with_is_parenthesised_list(self, s: ast.With) -> bool:
+		"""`with ( item, item … [,] ) :` — the opening parenthesis after `with` closes right before the colon"""
+		import io
+		import tokenize
+		lines = self.src.split('\n')[s.lineno - 1:]
+		text = '\n'.join(lines)[s.col_offset:]
+		try:
+			toks = [t for t in tokenize.generate_tokens(io.StringIO(text).readline) if t.type not in (tokenize.NL, tokenize.NEWLINE, tokenize.COMMENT, tokenize.INDENT, tokenize.DEDENT)]
+		except (tokenize.TokenError, IndentationError, SyntaxError):
+			toks = []
+			try:
+				for t in tokenize.generate_tokens(io.StringIO(text).readline):
+					if t.type not in (tokenize.NL, tokenize.NEWLINE, tokenize.COMMENT, tokenize.INDENT, tokenize.DEDENT):
+						toks.append(t)
+			except (tokenize.TokenError, IndentationError, SyntaxError):
+				pass
+		if len(toks) < 3 or toks[0].string != 'with' or toks[1].string != '(':
+			return False
+		depth = 0
+		for i, t in enumerate(toks[1:], start=1):
+			if t.string in '([{' and t.type == tokenize.OP:
+				depth += 1
+			elif t.string in ')]}' and t.type == tokenize.OP:
+				depth -= 1
+				if depth == 0:
+					closes_before_colon = i + 1 < len(toks) and toks[i + 1].string == ':'
+					trailing_comma = toks[i - 1].string == ','
+					return closes_before_colon and (len(s.items) >= 2 or trailing_comma)
+		return False
 
 	def names_of_target(self, t: ast.expr) -> list[str]:
 		if isinstance(t, ast.Tuple):
 			return [self.expr(e, store=True) for e in t.elts]
 		return [self.expr(t, store=True)]
 
-	def stmt(self, s: ast.stmt, scope: str) -> str:
+	def stmt(self, s: ast.stmt, scope: str, direct: bool = False) -> str:
 		e = self.expr
 		if isinstance(s, ast.Expr):
 			return sx('Expr', e(s.value))
 		if isinstance(s, ast.Assign):
 			if len(s.targets) != 1:
-				return sx('AssignChain', [self.names_of_target(t) for t in s.targets], e(s.value))
+				# tranp's reading: first target list, the second target as the value, the rest unreachable
+				self.mark('group:chained-assignment', s)
+				return sx('Assign', self.names_of_target(s.targets[0]), e(s.targets[1]))
 			return sx('Assign', self.names_of_target(s.targets[0]), e(s.value))
 		if isinstance(s, ast.AnnAssign):
 			ann = s.annotation
 			# grammar.lark's own forms `x: ClassVar = v` (class_var_assign → MoveAssign) and `x: ClassVar[T] = v`
 			# (class_var_anno_assign → AnnoAssign of T): the ClassVar wrapper is syntax there, not a type
-			if isinstance(ann, ast.Name) and ann.id == 'ClassVar' and s.value is not None:
-				return sx('Assign', [e(s.target, store=True)], e(s.value))
-			if isinstance(ann, ast.Subscript) and isinstance(ann.value, ast.Name) and ann.value.id == 'ClassVar' and s.value is not None:
-				ann = ann.slice
+			# the ClassVar wrapper is carried by the receiver's class on the tranp side (DeclClassVar): role `classvar`
+			if isinstance(ann, ast.Name) and ann.id == 'ClassVar' and s.value is not None and isinstance(s.target, ast.Name):
+				return sx('Assign', [sx('Name', s.target.id, 'classvar')], e(s.value))
+			if isinstance(ann, ast.Subscript) and isinstance(ann.value, ast.Name) and ann.value.id == 'ClassVar' and s.value is not None and isinstance(s.target, ast.Name):
+				return sx('AnnAssign', sx('Name', s.target.id, 'classvar'), self.type(ann.slice), e(s.value))
 			return sx('AnnAssign', e(s.target, store=True), self.type(ann), e(s.value) if s.value else None)
 		if isinstance(s, ast.AugAssign):
 			return sx('AugAssign', e(s.target), AUG_OPS[type(s.op)], e(s.value))
@@ -969,11 +1058,11 @@ class PyCanon:
 			return self.if_chain(s, scope)
 		if isinstance(s, ast.While):
 			if s.orelse:
-				raise CanonError('while-else')
+				raise CanonError('while-else')  # not in grammar.lark
 			return sx('While', e(s.test), self.body(s.body, scope))
 		if isinstance(s, ast.For):
 			if s.orelse:
-				raise CanonError('for-else')
+				raise CanonError('for-else')  # not in grammar.lark
 			return sx('For', self.names_of_target(s.target), e(s.iter), self.body(s.body, scope))
 		if isinstance(s, ast.Try):
 			if s.orelse or s.finalbody:
@@ -981,22 +1070,45 @@ class PyCanon:
 			hs = [sx('Handler', self.type(h.type) if h.type else None, sx('Name', h.name, 'decl') if h.name else None, self.body(h.body, scope)) for h in s.handlers]
 			return sx('Try', self.body(s.body, scope), hs)
 		if isinstance(s, ast.With):
-			items = [sx('Item', e(i.context_expr), e(i.optional_vars, store=True) if i.optional_vars else None) for i in s.items]
+			if all(i.optional_vars is None for i in s.items) and self.with_is_parenthesised_list(s):
+				self.mark('canon:with-parenthesised-items', s)
+				items = [sx('Item', sx('Tuple', [e(i.context_expr) for i in s.items]), None)]
+			else:
+				items = [sx('Item', e(i.context_expr), e(i.optional_vars, store=True) if i.optional_vars else None) for i in s.items]
 			return sx('With', items, self.body(s.body, scope))
 		if isinstance(s, ast.FunctionDef):
 			decos = [self.decorator(d) for d in s.decorator_list]
 			deco_names = [ast.unparse(d.func if isinstance(d, ast.Call) else d) for d in s.decorator_list]
+			cm, st, init = 'classmethod' in deco_names, 'staticmethod' in deco_names, s.name == '__init__'
+			first = s.args.args[0].arg if s.args.args else None
+			# the kind Python's scoping dictates (independent of tranp)
 			if scope == 'class':
-				kind = 'ClassMethod' if 'classmethod' in deco_names else 'Constructor' if s.name == '__init__' else 'Function' if 'staticmethod' in deco_names else 'Method'
+				kind = 'ClassMethod' if cm else 'Constructor' if init else 'Function' if st else 'Method'
 			elif scope == 'function':
 				kind = 'Closure'
 			else:
 				kind = 'Function'
-			return sx('Def', kind, s.name, decos, self.params(s.args), self.type(s.returns) if s.returns else None, self.body(s.body, 'function'))
+			# the known divergences of the name-/path-based match_feature tests: raised, then continued with tranp's kind
+			if cm and scope != 'class':
+				self.mark('classify:classmethod-outside-class', s)
+				kind = 'ClassMethod'
+			elif scope == 'class' and not direct and not cm:
+				self.mark('classify:class-function-under-block', s)
+				kind = 'Closure'
+			elif scope == 'class' and direct and not cm and not init:
+				if not st and first != 'self':
+					self.mark('classify:method-without-self-name', s)
+					kind = 'Function'
+				elif st and first == 'self':
+					self.mark('classify:staticmethod-taking-self', s)
+					kind = 'Method'
+			return sx('Def', kind, s.name, decos, self.params(s.args), self.type(s.returns) if s.returns else None, self.body(s.body, 'function', owner=s))
 		if isinstance(s, ast.ClassDef):
+			if any(k.arg != 'metaclass' for k in s.keywords):
+				raise CanonError('class keywords')  # only `metaclass=` is in grammar.lark
 			if s.keywords:
-				raise CanonError('class keywords')
-			return sx('Class', s.name, [self.decorator(d) for d in s.decorator_list], [self.type(b) for b in s.bases], self.body(s.body, 'class'))
+				self.mark('canon:class-metaclass-dropped', s)
+			return sx('Class', s.name, [self.decorator(d) for d in s.decorator_list], [self.type(b) for b in s.bases], self.body(s.body, 'class', direct=True, owner=s))
 		if isinstance(s, ast.ImportFrom):
 			return sx('Import', s.module, [sx('alias', a.name, a.asname) for a in s.names])
 		raise CanonError(f'stmt {type(s).__name__}')
@@ -1116,7 +1228,10 @@ class PyCanon:
 		if isinstance(n, ast.DictComp):
 			return sx('DictComp', sx('pair', e(n.key), e(n.value)), *self.generators(n.generators))
 		if isinstance(n, ast.Yield):
-			return sx('Yield', e(n.value) if n.value else None)
+			if n.value is None:
+				self.mark('canon:bare-yield-read-as-name', n)
+				return sx('Name', 'yield', 'ref')
+			return sx('Yield', e(n.value))
 		raise CanonError(f'expr {type(n).__name__}')
 
 	def generators(self, gens: list[ast.comprehension]) -> tuple[list[str], str | None]:
@@ -1133,7 +1248,7 @@ class PyCanon:
 		return fors, cond
 
 
-DECL_CLASSES = {'DeclLocalVar', 'DeclClassVar', 'DeclThisVarForward', 'DeclParam', 'DeclClassParam', 'DeclThisParam', 'AltTypesName', 'TypesName', 'ImportName'}
+DECL_CLASSES = {'DeclLocalVar', 'DeclThisVarForward', 'DeclParam', 'DeclClassParam', 'DeclThisParam', 'AltTypesName', 'TypesName', 'ImportName'}
 REF_CLASSES = {'Var', 'ClassRef', 'ThisRef', 'ArgumentLabel'}
 BIN_CLASSES = {'OrBitwise', 'XorBitwise', 'AndBitwise', 'ShiftBitwise', 'Sum', 'Term'}
 
@@ -1302,6 +1417,8 @@ class TranpCanon:
 	def expr(self, n: Any) -> str:
 		c = self.cls(n)
 		e = self.expr
+		if c == 'DeclClassVar':
+			return sx('Name', n.tokens, 'classvar')
 		if c in DECL_CLASSES:
 			return sx('Name', n.tokens, 'decl')
 		if c in REF_CLASSES:
@@ -1329,7 +1446,16 @@ class TranpCanon:
 			if n.sliced:
 				lo, hi, st = n.keys
 				return sx('Index', e(n.receiver), sx('Slice', self.opt(lo, e), self.opt(hi, e), self.opt(st, e)))
-			return sx('Index', e(n.receiver), sx('Keys', [e(k) for k in n.keys]))
+			keys = n.keys
+			if len(keys) == 1:
+				# `a[(1, 2)]` and `a[1, 2]` are one and the same CPython ast (Subscript with a Tuple slice); tranp keeps the
+				# parentheses apart (keys [Tuple] vs keys [1, 2]) — finer than the oracle, not a divergence: compared modulo that
+				k = keys[0]
+				while self.cls(k) == 'Group':
+					k = k.expression
+				if self.cls(k) == 'Tuple':
+					return sx('Index', e(n.receiver), sx('Keys', [e(x) for x in k.values]))
+			return sx('Index', e(n.receiver), sx('Keys', [e(k) for k in keys]))
 		if c in ('Factor', 'NotCompare'):
 			return sx('UnaryOp', n.operator.tokens, e(n.value))
 		if c in BIN_CLASSES:
@@ -1378,7 +1504,7 @@ def first_diff(a: str, b: str) -> str:
 CANON_VOCAB = {'Module', 'Expr', 'Assign', 'AssignChain', 'AnnAssign', 'AugAssign', 'Return', 'Pass', 'Break', 'Continue', 'Assert', 'Raise', 'Delete', 'If', 'Elif',
 	'While', 'For', 'Try', 'Handler', 'With', 'Item', 'Def', 'Class', 'Import', 'alias', 'Decorator', 'P', 'TName', 'TAttr', 'TNone', 'TEllipsis', 'TGeneric', 'TList',
 	'TUnion', 'pos', 'kw', 'star', 'dstar', 'Name', 'Const', 'Attr', 'Call', 'Index', 'Slice', 'Keys', 'UnaryOp', 'BinOp', 'BoolOp', 'Compare', 'cmp', 'IfExp',
-	'Lambda', 'List', 'Tuple', 'Dict', 'pair', 'Starred', 'ListComp', 'DictComp', 'for', 'Yield', 'Ellipsis', 'None', 'decl', 'ref',
+	'Lambda', 'List', 'Tuple', 'Dict', 'pair', 'Starred', 'ListComp', 'DictComp', 'for', 'Yield', 'Ellipsis', 'None', 'decl', 'ref', 'classvar',
 	'Function', 'Method', 'ClassMethod', 'Constructor', 'Closure', *OP_NAMES, 'is_not', 'not_in'}
 
 
@@ -1402,19 +1528,36 @@ def construct_key(src: str, a: str, b: str) -> str:
 	return f'canon:{tag_at(a)}:{word_at(a)}/{tag_at(b)}:{word_at(b)}'
 
 
-def check_source(app: common.MemApp, src: str) -> tuple[str, str | None, str | None]:
-	"""('ok' | 'skip:<why>' | 'diff' | 'raise', key, detail)"""
+class Checked(tuple):
+	"""(status, key, detail) of the comparison plus `.marks`: the known divergences the program contains (key -> detail)"""
+	marks: dict[str, str]
+
+	def __new__(cls, status: str, key: str | None, detail: str | None, marks: dict[str, str] | None = None) -> 'Checked':
+		self = super().__new__(cls, (status, key, detail))
+		self.marks = marks or {}
+		return self
+
+	def keys(self) -> set[str]:
+		out = set(self.marks)
+		if self[0] in ('diff', 'raise') and self[1]:
+			out.add(self[1])
+		return out
+
+
+def check_source(app: common.MemApp, src: str) -> Checked:
+	"""('ok' | 'skip:<why>' | 'diff' | 'raise', key, detail) with `.marks`"""
 	import lark
 	try:
 		with warnings.catch_warnings():
 			warnings.simplefilter('ignore')
 			tree = ast.parse(src)
 	except SyntaxError:
-		return 'skip:cpython-rejects', None, None
+		return Checked('skip:cpython-rejects', None, None)
+	pc = PyCanon(src)
 	try:
-		py = PyCanon().module(tree)
+		py = pc.module(tree)
 	except CanonError as e:
-		return f'skip:outside-oracle:{e}', None, None
+		return Checked(f'skip:outside-oracle:{e}', None, None)
 	try:
 		ep = app.entrypoint(src)
 	except Exception as e:  # noqa: BLE001
@@ -1422,19 +1565,20 @@ def check_source(app: common.MemApp, src: str) -> tuple[str, str | None, str | N
 		# modules; after fix 12dd004: wrapped into Errors.Syntax with the lark exception as cause / argument)
 		causes = [e, e.__cause__, *getattr(e, 'args', ())]
 		if any(isinstance(c, lark.exceptions.LarkError) for c in causes):
-			return 'skip:grammar-rejects', None, None
-		return 'raise', f'raise:parse:{exc_enum(e)}', ''.join(traceback.format_exception_only(type(e), e))[-400:]
+			return Checked('skip:grammar-rejects', None, None)
+		return Checked('raise', f'raise:parse:{exc_enum(e)}', ''.join(traceback.format_exception_only(type(e), e))[-400:])
+	marks = pc.marks
 	try:
 		tr = TranpCanon().module(ep)
 	except CanonError as e:
-		return 'raise', f'canon-unmapped:{e}', str(e)
+		return Checked('raise', f'canon-unmapped:{e}', str(e), marks)
 	except NodeAccessError as e:
-		return 'raise', f'raise:{e.key}', e.detail
+		return Checked('raise', f'raise:{e.key}', e.detail, marks)
 	except Exception as e:  # noqa: BLE001 - node construction / property access failed on a text both parsers accept
-		return 'raise', f'raise:nodes:{exc_enum(e)}', ''.join(traceback.format_exception_only(type(e), e))[-400:]
+		return Checked('raise', f'raise:nodes:{exc_enum(e)}', ''.join(traceback.format_exception_only(type(e), e))[-400:], marks)
 	if tr == py:
-		return 'ok', None, None
-	return 'diff', construct_key(src, tr, py), first_diff(tr, py)
+		return Checked('ok', None, None, marks)
+	return Checked('diff', construct_key(src, tr, py), first_diff(tr, py), marks)
 
 
 def shrink_source(app: common.MemApp, src: str, key: str, budget: int = 250) -> str:
@@ -1445,7 +1589,7 @@ def shrink_source(app: common.MemApp, src: str, key: str, budget: int = 250) -> 
 		return len(ln) - len(ln.lstrip(' \t'))
 
 	def fails(ls: list[str]) -> bool:
-		return bool(ls) and check_source(app, '\n'.join(ls) + '\n')[1] == key
+		return bool(ls) and key in check_source(app, '\n'.join(ls) + '\n').keys()
 	steps = 0
 	changed = True
 	while changed and steps < budget:
@@ -1509,15 +1653,22 @@ def search_canon(ctx: Ctx) -> SearchResult:
 	for src, name in sources:
 		res.cases += 1
 		distinct.add(hash(src))
-		status, key, detail = check_source(app, src)
-		if status in ('diff', 'raise') and corpus_keys.get(name):
+		chk = check_source(app, src)
+		status, key, detail = chk
+		if status in ('diff', 'raise') and corpus_keys.get(name) and not chk.marks:
 			# a committed witness of a defect (CONVENTIONS rules 3, 5, 7) keeps the name it was filed under
 			key = corpus_keys[name]
-		hist[status.split(':')[0] + (':' + status.split(':')[1] if status.startswith('skip') else '')] += 1
-		if status in ('diff', 'raise') and key and key not in seen_keys:
-			seen_keys.add(key)
-			small = shrink_source(app, src, key) if not name.startswith('corpus') else src
-			f = Finding(key=key, what=f'{status} on {name}: {detail}', replay={'source': small, 'origin': name, 'detail': detail})
+		hist[status.split(':')[0] + (':' + status.split(':')[1] if status.startswith('skip') else '') + ('+known-divergence' if chk.marks else '')] += 1
+		pending = [(k, 'known divergence', d) for k, d in chk.marks.items()]
+		if status in ('diff', 'raise') and key:
+			pending.append((key, status, detail or ''))
+		for k, kind, det in pending:
+			hist[f'key:{k}'] += 1
+			if k in seen_keys:
+				continue
+			seen_keys.add(k)
+			small = shrink_source(app, src, k) if not name.startswith('corpus') else src
+			f = Finding(key=k, what=f'{kind} on {name}: {det}', replay={'source': small, 'origin': name, 'detail': det})
 			# committed defect witnesses are replayed first but listed last, so that new findings get the VIOLATION lines
 			(corpus_findings if name.startswith('corpus') else res.findings).append(f)
 		if status == 'ok':
@@ -1526,12 +1677,9 @@ def search_canon(ctx: Ctx) -> SearchResult:
 				for node in ast.walk(ast.parse(src)):
 					if isinstance(node, (ast.stmt, ast.expr, ast.comprehension, ast.ExceptHandler, ast.arg, ast.keyword)):
 						constructs[type(node).__name__] += 1
-		if status == 'ok' and len(res.samples) < 2:
+		if status == 'ok' and not chk.marks and len(res.samples) < 2:
 			res.samples.append({'origin': name, 'source': src[:300]})
 	res.findings.extend(corpus_findings)
-	# witness of theorem classify_func_counterexample (naming convention `self`; recorded, not a finding — see STATEMENTS)
-	st_conv, _, det_conv = check_source(app, 'class A:\n\tdef f(this) -> None:\n\t\tpass\n')
-	hist[f'convention-witness(first parameter not named self):{st_conv}'] += 1
 	res.distinct = len(distinct)
 	res.histogram = {**dict(hist), **{f'construct:{k}': v for k, v in sorted(constructs.items())}}
 	judged = hist.get('ok', 0) + hist.get('diff', 0) + hist.get('raise', 0)
@@ -1558,7 +1706,7 @@ STATEMENTS = {
 	'classify_core / classify_func_partial': 'on every real function_def path, tranp\'s kind = the kind Python\'s scoping dictates (pyFuncClass) given the 3 remaining conventions: @classmethod only in classes, class functions directly in the class body, self first exactly on instance methods',
 	'classify_constructor_agrees / classify_classMethod_agrees / classify_method_sound': 'the three formerly false statements, each with exactly the hypothesis it still needs (one / one / none)',
 	'classify_former_witnesses': 'the three old counter-example witnesses are classified as Python does',
-	'classify_func_counterexample': 'the unconditional statement is still false where match_feature goes by the name self (class function whose first parameter is not called self): dialect convention, not filed as a defect',
+	'classify_func_counterexample': 'the unconditional statement is still false where match_feature goes by the name self (class function whose first parameter is not called self); raised by the search as classify:method-without-self-name',
 	'classify_name_param / classify_var_reference': 'parameter names are declarations exactly below typedparam; a var is a reference exactly when no DeclableMatcher pattern holds',
 }
 
